@@ -436,6 +436,16 @@ let () =
          | 'K' -> report_spec ~prop:(if (try ignore (Str.search_forward (Str.regexp "call order\\|try_fill result") line 0); true with Not_found -> false) then "C02" else "C11")
                     ~pred:"driver_check" ~detail:(String.map (fun c -> if c = ' ' then '_' else c) line)
          | 'X' -> report_spec ~prop:"C09" ~pred:"terminates" ~detail:(match !pending with Some p -> String.map (fun c -> if c = ' ' then '_' else c) p | None -> "?")
+         | 'I' ->
+           (* C20 isolation differential: the same history alone and among other arenas, fresh processes *)
+           let kv = kv_of line in
+           let get x = (try List.assoc x kv with Not_found -> "?") in
+           hid := "iso" ^ get "hid"; opno := 0; cur_desc := "isolation differential " ^ get "hid"; header := "iso seed=" ^ get "seed";
+           bump_count "iso_histories";
+           let parts = split_ws line in
+           if List.mem "diff" parts then
+             report_spec ~prop:"C20" ~pred:"independent_of_other_arenas"
+               ~detail:(String.concat "_" (List.filter (fun w -> String.length w > 5 && (String.sub w 0 5 = "alone" || String.sub w 0 5 = "with_")) parts))
          | 'T' ->
            (* constructor with a given MIN_ALIGN: panics iff the model's ctor_ok is false, and then asks for no memory *)
            let kv = kv_of line in
